@@ -3,7 +3,8 @@
 From Coq Require Import List NArith.
 From Coq.Strings Require Import Byte.
 From Coq Require Import Extraction ExtrOcamlBasic.
-From GI Require Import Lib.Bytes Gen.ImportsConsts Imports.Build Imports.Read.
+From GI Require Import Lib.Bytes Gen.ImportsConsts Imports.Build Imports.Read Imports.ReadGrammar.
 Extraction Language OCaml.
 Extraction "extracted/imports/model.ml" Byte.of_N Byte.to_N
-  should_build spec_should_build match_file match_tags read_imports read_comments.
+  should_build spec_should_build match_file match_tags read_imports read_comments
+  wf_section render render_body paths.
